@@ -229,6 +229,16 @@ pub(crate) mod verif_support {
             match v {
                 Value::Number(n) => n.as_u64().unwrap_or(u64::MAX - 3),
                 Value::Null => u64::MAX - 1,
+                // strings: a tag plus the first four bytes (enough to tell one-character strings apart)
+                Value::String(s) => {
+                    let b = s.as_bytes();
+                    let mut x: u64 = 0x5300_0000_0000_0000 | ((b.len() as u64) << 40);
+                    if b.len() > 0 { x |= b[0] as u64; }
+                    if b.len() > 1 { x |= (b[1] as u64) << 8; }
+                    if b.len() > 2 { x |= (b[2] as u64) << 16; }
+                    if b.len() > 3 { x |= (b[3] as u64) << 24; }
+                    x
+                }
                 _ => u64::MAX - 2,
             }
         }
@@ -282,6 +292,75 @@ pub(crate) mod verif_support {
         }
         pub fn log_at(k: usize) -> (usize, *const Value) {
             unsafe { (LOG_NODE[k], LOG_DATA[k]) }
+        }
+    }
+
+    // ------------------------------------------------------------------ std::str::Chars by contract
+    // An ABSTRACT string of CH_L characters whose i-th character is abstract_char(i): 1-, 4-, 2- and 3-byte
+    // characters (the second one is outside the BMP, so UTF-8 length, UTF-16 length and character count all differ).
+    // Stubbing `<Chars as Iterator>::{next, count, advance_by}` with these makes every std adapter on top of Chars
+    // (Skip, Take, Map, collect, ...) run for real on such a string without CBMC decoding UTF-8 from the heap.
+    // Assumed contract (trusted): the real Chars of a string with exactly these characters behaves like this.
+    pub mod chars_contract {
+        pub static mut CH_L: usize = 0;
+        pub static mut CH_POS: usize = 0;
+        pub static mut CH_COUNT_CALLS: u32 = 0;
+        pub fn abstract_char(i: usize) -> char {
+            match i {
+                0 => 'a',
+                1 => '\u{1F600}',
+                2 => '\u{e9}',
+                _ => '\u{20ac}',
+            }
+        }
+        /// the real text of the abstract string with `l` characters (what a body that looks at bytes sees)
+        pub fn real_text(l: usize) -> &'static str {
+            match l {
+                0 => "",
+                1 => "a",
+                2 => "a\u{1F600}",
+                3 => "a\u{1F600}\u{e9}",
+                _ => "a\u{1F600}\u{e9}\u{20ac}",
+            }
+        }
+        pub fn reset(l: usize) {
+            unsafe {
+                CH_L = l;
+                CH_POS = 0;
+            }
+        }
+        /// carrier: a method of an `impl<'a>` has the same early-bound lifetime parameter as
+        /// `impl<'a> Iterator for Chars<'a>`, which Kani requires of a stub
+        pub struct CharsContract<'a>(std::marker::PhantomData<&'a ()>);
+        impl<'a> CharsContract<'a> {
+            pub fn next(_c: &mut std::str::Chars<'a>) -> Option<char> {
+                unsafe {
+                    if CH_POS < CH_L {
+                        CH_POS += 1;
+                        Some(abstract_char(CH_POS - 1))
+                    } else {
+                        None
+                    }
+                }
+            }
+            pub fn advance_by(_c: &mut std::str::Chars<'a>, n: usize) -> Result<(), std::num::NonZero<usize>> {
+                unsafe {
+                    let left = CH_L - CH_POS;
+                    if n <= left {
+                        CH_POS += n;
+                        Ok(())
+                    } else {
+                        CH_POS = CH_L;
+                        Err(std::num::NonZero::new(n - left).unwrap())
+                    }
+                }
+            }
+            pub fn count(_c: std::str::Chars<'a>) -> usize {
+                unsafe {
+                    CH_COUNT_CALLS += 1;
+                    CH_L - CH_POS
+                }
+            }
         }
     }
 
